@@ -84,6 +84,7 @@ func (p *propC11) Prepare(seed uint64, tier string) int {
 		}
 		singles = append(singles, poolEntry{Name: fmt.Sprintf("model%d", i), Bytes: b, Med: Medium{Records: rs}, FT: ft})
 	}
+	singles = append(singles, crcEngineeredStreams()...)
 	if len(singles) == 0 {
 		fatalInfra("C11: empty pool")
 	}
@@ -536,4 +537,49 @@ func (p *propC11) prefixDump(name string, m0 []byte, fr *Frame, fi, nrec int) []
 	}
 	p.prefixCache[key] = r.Dump
 	return r.Dump
+}
+
+// crcEngineeredStreams returns small valid files whose stored checksums have
+// special byte values: file CRC with high byte 0, with low byte 0, equal to 0,
+// and a 14-byte header whose CRC has high byte 0. A cut one byte short of such
+// a checksum leaves a running sum whose residue is already 0.
+func crcEngineeredStreams() []poolEntry {
+	var out []poolEntry
+	mk := func(v int, profile uint16) *RecStream {
+		return &RecStream{Header: HeaderSpec{Size: 14, Proto: 0x20, Profile: profile, HCRC: "ok"}, Ops: []Op{
+			{Def: &DefOp{Local: 0, Arch: "le", Global: 0, Fields: [][3]int{{0, 1, 0}}}},
+			{Data: &DataOp{Local: 0, Bytes: "04"}},
+			{Def: &DefOp{Local: 1, Arch: "le", Global: 20, Fields: [][3]int{{3, 1, 2}, {4, 1, 2}}}},
+			{Data: &DataOp{Local: 1, Bytes: "5a5b"}},
+			{Data: &DataOp{Local: 1, Bytes: hexs([]byte{byte(v), byte(v >> 8)})}},
+		}}
+	}
+	targets := []struct {
+		name string
+		ok   func(b []byte) bool
+	}{
+		{"crc-high-byte-0", func(b []byte) bool { return b[len(b)-1] == 0 && b[len(b)-2] != 0 }},
+		{"crc-low-byte-0", func(b []byte) bool { return b[len(b)-2] == 0 && b[len(b)-1] != 0 }},
+		{"crc-0", func(b []byte) bool { return b[len(b)-2] == 0 && b[len(b)-1] == 0 }},
+	}
+	for _, t := range targets {
+		for v := 0; v < 65536; v++ {
+			if v&0xFF == 0xFF || v>>8 == 0xFF {
+				continue // keep both field values valid
+			}
+			rs := mk(v, 2115)
+			if b := rs.Build(); t.ok(b) {
+				out = append(out, poolEntry{Name: t.name, Bytes: b, Med: Medium{Records: rs}, FT: 4})
+				break
+			}
+		}
+	}
+	for pv := 1; pv < 65536; pv++ {
+		rs := mk(0x4142, uint16(pv))
+		if b := rs.Build(); b[13] == 0 && b[12] != 0 {
+			out = append(out, poolEntry{Name: "header-crc-high-byte-0", Bytes: b, Med: Medium{Records: rs}, FT: 4})
+			break
+		}
+	}
+	return out
 }
